@@ -8,6 +8,7 @@ import z3
 
 from pyvc.core import to_real, to_z3, is_z3
 from pyvc.unyt_domain import (SDim, SLut, RowSort, pfx_of, e_str, BASE_DIMS, _b)
+from pyvc.unyt_domain import expr_str as _term_str
 
 TEMPERATURE = SDim.base("temperature")
 ANGLE = SDim.base("angle")
@@ -27,7 +28,7 @@ def dim(u):
 
 
 def expr_str(u):
-    return e_str(u.fields["expr"].term)
+    return _term_str(u.fields["expr"].term)
 
 
 def ustr(u):
@@ -35,8 +36,12 @@ def ustr(u):
     the printed expression (property C20 / Unit.__str__ contract)"""
     from pyvc.unyt_domain import E_ONE
     e = u.fields["expr"].term
-    t = e_str(e)
+    t = _term_str(e)
     sv = z3.StringVal
+    if z3.is_string_value(t):
+        n = t.as_string()
+        return sv({"degC": "\u00b0C", "delta_degC": "\u0394\u00b0C", "degF": "\u00b0F",
+                   "delta_degF": "\u0394\u00b0F"}.get(n, n))
     return z3.If(e == E_ONE, sv("dimensionless"),
                  z3.If(t == sv("degC"), sv("\u00b0C"),
                        z3.If(t == sv("delta_degC"), sv("\u0394\u00b0C"),
@@ -47,7 +52,10 @@ def ustr(u):
 def urepr(u):
     from pyvc.unyt_domain import E_ONE
     e = u.fields["expr"].term
-    return z3.If(e == E_ONE, z3.StringVal("(dimensionless)"), e_str(e))
+    t = _term_str(e)
+    if z3.is_string_value(t):
+        return t
+    return z3.If(e == E_ONE, z3.StringVal("(dimensionless)"), t)
 
 
 def lut_of(u):
